@@ -87,6 +87,11 @@ def plan(tier):
         ("m", (("ka", "a a"), ("k b", ("l", ("a a", "a]", "aa"))),
                ("kc", ("m", (("a a", "it's"), ("kd", "a a b")))))),
         ("l", ("a a", ("m", (("a a", "x"), ("kb", "a\\b"))), "it's")),
+        # anchor names holding a separator, on elements of the root Array
+        # (where the anchor opens the printed path) and beneath a key
+        ("l", (("&", "v1.0", "aa"), "ab", ("*", "v1.0"))),
+        ("l", (("&", "s/2", ("m", (("kc", "aa"),))), "ab")),
+        ("m", (("ka", ("l", (("&", "v1.0", "aa"), ("&", "s/2", "aa")))),)),
     ]
     EXPRS = []
     terms = ("aa", "a", "1000", "15", "k", "a a", "a]", "it's", "a\\b") \
